@@ -77,8 +77,19 @@ async fn rmw(b: &AnyBackend, sh: &Shared, keys: &[String], delta: &[i64]) -> boo
     let (keys, delta) = (&keys[..], &delta[..]);
     let mut sess = match b.session(None, true) { Ok(s) => s, Err(_) => return false };
     let mut reads = vec![];
-    for k in keys {
-        match sess.fetch(EntryKind::Item, "acct", k, true).await {
+    for (ki, k) in keys.iter().enumerate() {
+        let mut r = sess.fetch(EntryKind::Item, "acct", k, true).await;
+        if ki == 0 && r.is_err() && sh.fails.load(Ordering::SeqCst) % 2 == 0 {
+            // the transaction could not be started (write lock busy): every other time the caller keeps the session object
+            // and tries again — the retried session must still be a transaction
+            for _ in 0..4 {
+                sh.bump("txn-begin-retried-on-same-session");
+                std::thread::sleep(std::time::Duration::from_millis(3));
+                r = sess.fetch(EntryKind::Item, "acct", k, true).await;
+                if r.is_ok() { break; }
+            }
+        }
+        match r {
             Ok(Some(e)) => reads.push((k.clone(), parse(e.value.as_ref()))),
             Ok(None) => { sh.fail(json!({"sig": "record-vanished", "key": k})); sess.close(false).await.ok(); return false; }
             Err(_) => { sh.bump("txn-aborted-on-read"); sess.close(false).await.ok(); return false; }
